@@ -60,6 +60,7 @@ def loaders():
     out = [("py", yaml.SafeLoader)]
     if have_c():
         out.append(("c", yaml.CSafeLoader))
+    out.append(("safe_load", None))        # the convenience entry point (safe_load / safe_load_all)
     return out
 
 
@@ -163,6 +164,17 @@ def roundtrip(obj, opts, to_stream, info_classes):
             failures.append(Failure("dump-raised:%s:%s" % (dname, exc_key(e)), exc_msg(e)))
             continue
         evals += 1
+        if dname == "py" and not to_stream:
+            # the convenience entry point is the same operation: safe_dump writes what dump(Dumper=SafeDumper) writes
+            evals += 1
+            try:
+                t2 = yaml.safe_dump(obj, **kw)
+            except RecursionError:
+                raise
+            except Exception as e:
+                t2 = "raised %s" % exc_key(e)
+            if t2 != text:
+                failures.append(Failure("safe_dump-differs-from-dump-with-SafeDumper", "%.200r\n!=\n%.200r" % (t2, text)))
         for lname, L in loaders():
             evals += 1
             try:
@@ -172,7 +184,7 @@ def roundtrip(obj, opts, to_stream, info_classes):
                     from checks.c07 import ChunkedText
                     from vlib.runner import h64
                     src = ChunkedText(text, [[1, 3, 64, 1000, 4096, 100000][h64(text) % 6]])
-                back = yaml.load(src, Loader=L)
+                back = yaml.safe_load(src) if L is None else yaml.load(src, Loader=L)
             except RecursionError:
                 raise
             except Exception as e:
@@ -284,10 +296,20 @@ def eval_temporaries(case):
         except Exception as e:
             failures.append(Failure("dump_all-generator-raised:%s:%s" % (dname, exc_key(e)), exc_msg(e)))
             continue
+        if dname == "py":
+            evals += 1
+            try:
+                t2 = yaml.safe_dump_all((gv.build(bp)[0] for bp in bps), **opts)
+            except RecursionError:
+                raise
+            except Exception as e:
+                t2 = "raised %s" % exc_key(e)
+            if t2 != text:
+                failures.append(Failure("safe_dump_all-differs-from-dump_all-with-SafeDumper", "%.200r\n!=\n%.200r" % (t2, text)))
         for lname, L in loaders():
             evals += 1
             try:
-                back = list(yaml.load_all(text, Loader=L))
+                back = list(yaml.safe_load_all(text) if L is None else yaml.load_all(text, Loader=L))
             except Exception as e:
                 failures.append(Failure("load-rejects-dump_all-output:%s>%s:%s" % (dname, lname, exc_key(e)), "%s\ntext=%r" % (exc_msg(e), text[:300])))
                 continue
